@@ -431,6 +431,7 @@ def run_check(plugin, tier, seed, replay=None):
     exe = None
     if model_ok:
         exe, dlog = build_driver(pid)
+        _DRIVER_READY[pid] = exe
         if exe is None:
             broken.append({"kind": "MODEL_BUILD_BROKEN", "what": "ocaml driver", "detail": dlog[-800:]})
             say("driver build failed: " + dlog[-300:])
@@ -489,6 +490,22 @@ def run_check(plugin, tier, seed, replay=None):
     say("correspondence: %d/%d agree (%d outside modelled domain); oracle violations: %d" %
         (n_agree, n_model, unmodelled, len(violations)))
 
+    # optional second oracle evaluated in batch through the same driver (e.g. a specification machine)
+    if exe is not None and hasattr(plugin, "batch_oracle"):
+        def run_model(inputs):
+            outs = []
+            for st in range(0, len(inputs), plugin.model_chunk):
+                outs += run_driver(exe, [sexp.dumps(x) for x in inputs[st:st + plugin.model_chunk]])
+            return outs
+        try:
+            extra_v = plugin.batch_oracle(cases, results, run_model)
+            for c, cls, detail, observed in extra_v:
+                violations.append({"kind": "oracle", "class": cls, "case": c, "detail": detail, "observed": observed})
+            say("batch oracle: %d violation(s)" % len(extra_v))
+        except Exception as e:
+            broken.append({"kind": "CORR_BROKEN", "what": "batch oracle", "detail": traceback.format_exc()[-800:]})
+            say("batch oracle failed: %s" % e)
+
     # in-Coq cross-check of the extracted code on a sample
     xn = 0
     if exe is not None and model_out and model_ok:
@@ -515,9 +532,17 @@ def run_check(plugin, tier, seed, replay=None):
         budget = plugin.n_thorough if tier == "quick" else plugin.n_thorough * 2
         say("an obligation is broken; searching %d more inputs for a failing one" % budget)
         extra = [c for (_, c, _, _) in disagreements] + list(plugin.cases(random.Random(seed + 1), budget, "search"))
-        for c, (out, viol, key) in zip(extra, run_impl(plugin, extra)):
+        extra_res = run_impl(plugin, extra)
+        for c, (out, viol, key) in zip(extra, extra_res):
             for cls, detail in viol:
                 violations.append({"kind": "oracle", "class": cls, "case": c, "detail": detail, "observed": out})
+        if exe is not None and hasattr(plugin, "batch_oracle"):
+            try:
+                for c, cls, detail, observed in plugin.batch_oracle(extra, extra_res, run_model):
+                    violations.append({"kind": "oracle", "class": cls, "case": c, "detail": detail,
+                                       "observed": observed})
+            except Exception as e:
+                say("batch oracle failed during the search: %s" % e)
 
     known = {k["id"]: k for k in load_known() if k["property"] == pid and k.get("status") == "known"}
     reported = 0
@@ -616,7 +641,21 @@ def enc_norm(x):
     return sexp.loads(sexp.dumps(x))
 
 
+_DRIVER_READY = {}
+
+
 def _work_with(plugin, case):
     global _PLUGIN
     _PLUGIN = plugin
-    return _work(case)
+    res = _work(case)
+    if hasattr(plugin, "batch_oracle"):
+        exe = _DRIVER_READY.get(plugin.id)
+        if exe is None:
+            translate.run(plugin.gen)
+            coq_make(["Extract/%s.vo" % plugin.id])
+            exe, _ = build_driver(plugin.id)
+            _DRIVER_READY[plugin.id] = exe
+        if exe is not None:
+            extra = plugin.batch_oracle([case], [res], lambda inputs: run_driver(exe, [sexp.dumps(x) for x in inputs]))
+            res = (res[0], list(res[1]) + [(cls, detail) for (_, cls, detail, _) in extra], res[2])
+    return res
